@@ -39,6 +39,11 @@ def IsProductAmp {m n α : Type} [Mul α] (A : Matrix m n α) : Prop := ∃ (x :
 /-- all `2 × 2` minors of `A` vanish -/
 def MinorsVanish {m n α : Type} [Mul α] (A : Matrix m n α) : Prop := ∀ a a' b b', A a b * A a' b' = A a b' * A a' b
 
+/-- realignment for operators indexed by pairs: row `(a,a')`, column `(b,b')`, entry `X[(a,b),(a',b')]`; its rank is the
+    operator Schmidt rank -/
+def realign {m n α : Type} (X : Matrix (m × n) (m × n) α) : Matrix (m × m) (n × n) α :=
+  fun p q => X (p.1, q.1) (p.2, q.2)
+
 /-- `|ψ⟩⟨ψ|` (indexed by pairs) for the vector with amplitude matrix `A` -/
 def pureOfAmp {m n : Type} (A : Matrix m n ℂ) : Matrix (m × n) (m × n) ℂ :=
   fun p q => A p.1 p.2 * star (A q.1 q.2)
